@@ -1,0 +1,91 @@
+//go:build verif
+
+// Contracts for the butterfly kernels of the FFT of this field (comment-only; installed by /verif/gcv gen-contracts).
+// Layer "ring fr.Element": one call of a kernel performs, for every i in [start, end), the radix-2 butterfly on
+// the pair (a[i], a[i+m]):
+//   decimation in frequency:  a[i], a[i+m] <- a[i] + a[i+m], (a[i] - a[i+m]) * t_i
+//   decimation in time:       a[i], a[i+m] <- a[i] + t_i*a[i+m], a[i] - t_i*a[i+m]
+// with t_0 = 1 and t_i = twiddles[i] (kernels with a twiddle table) or t_i = twseq(at, w, i - max(start,1)) = at * w^(i - max(start,1)) (kernels
+// without: the first pair of a block is never multiplied), and leaves every other entry unchanged. That the whole
+// transform composed of these kernels is the DFT is the Cooley-Tukey induction, which is not under contract.
+
+package fft
+
+//@ func innerDIFWithTwiddlesGeneric
+//@ layer ring fr.Element
+//@ requires 0 <= start && start < end && end <= m && end + m <= len(a) && end <= len(twiddles) && m <= 1099511627776
+//@ loop 0
+//@ + invariant[butterflies] old(start) <= i && i <= end && (old(start) == 0 ==> 1 <= i) && len(a) == old(len(a)) && forall(j, old(start), i, a[j] == old(a[j]) + old(a[j+m]) && a[j+m] == old(a[j]) - old(a[j+m])) && forall(j, i, end, a[j] == old(a[j]) && a[j+m] == old(a[j+m]))
+//@ ensures[sum] forall(j, old(start), end, a[j] == old(a[j]) + old(a[j+m]))
+//@ ensures[difference-first] old(start) == 0 ==> a[m] == old(a[0]) - old(a[m])
+//@ ensures[difference] forall(k, 0, end - max(old(start), 1), a[max(old(start), 1) + m + k] == (old(a[max(old(start), 1) + k]) - old(a[max(old(start), 1) + m + k])) * twiddles[max(old(start), 1) + k])
+//@ modifies a
+//@ end
+
+//@ func innerDITWithTwiddlesGeneric
+//@ layer ring fr.Element
+//@ requires 0 <= start && start < end && end <= m && end + m <= len(a) && end <= len(twiddles) && m <= 1099511627776
+//@ ghost s1 = max(start, 1)
+//@ loop 0
+//@ + invariant[butterflies] s1 <= i && i <= end && len(a) == old(len(a)) && forall(k, 0, i - s1, a[s1 + k] == old(a[s1 + k]) + old(a[s1 + m + k]) * twiddles[s1 + k] && a[s1 + m + k] == old(a[s1 + k]) - old(a[s1 + m + k]) * twiddles[s1 + k]) && forall(k, i - s1, end - s1, a[s1 + k] == old(a[s1 + k]) && a[s1 + m + k] == old(a[s1 + m + k]) * twiddles[s1 + k]) && (old(start) == 0 ==> a[0] == old(a[0]) + old(a[m]) && a[m] == old(a[0]) - old(a[m]))
+//@ ensures[first] old(start) == 0 ==> a[0] == old(a[0]) + old(a[m]) && a[m] == old(a[0]) - old(a[m])
+//@ ensures[sum] forall(k, 0, end - s1, a[s1 + k] == old(a[s1 + k]) + old(a[s1 + m + k]) * twiddles[s1 + k])
+//@ ensures[difference] forall(k, 0, end - s1, a[s1 + m + k] == old(a[s1 + k]) - old(a[s1 + m + k]) * twiddles[s1 + k])
+//@ modifies a
+//@ end
+
+//@ func innerDIFWithoutTwiddles
+//@ layer ring fr.Element
+//@ smt (declare-fun twseq (Int Int Int) Int)
+//@ smt (assert (forall ((t Int) (x Int) (n Int)) (! (=> (<= n 0) (= (twseq t x n) t)) :pattern ((twseq t x n)))))
+//@ smt (assert (forall ((t Int) (x Int) (n Int)) (! (=> (> n 0) (= (twseq t x n) (* x (twseq t x (- n 1))))) :pattern ((twseq t x n)))))
+//@ smt-fun twseq Int
+//@ requires 0 <= start && start < end && end <= m && end + m <= len(a) && m <= 1099511627776
+//@ ghost s1 = max(start, 1)
+//@ ghost at0 = at
+//@ loop 0
+//@ + invariant[range] s1 <= i && i <= end && len(a) == old(len(a))
+//@ + invariant[twiddle] at == ufint_twseq(at0, w, i - s1)
+//@ + invariant[done-sum] forall(j, s1, i, a[j] == old(a[j]) + old(a[j+m]))
+//@ + invariant[done-difference] forall(j, s1, i, a[j+m] == (old(a[j]) - old(a[j+m])) * ufint_twseq(at0, w, j - s1))
+//@ + invariant[todo] forall(j, i, end, a[j] == old(a[j]) && a[j+m] == old(a[j+m]))
+//@ + invariant[first] old(start) == 0 ==> a[0] == old(a[0]) + old(a[m]) && a[m] == old(a[0]) - old(a[m])
+//@ ensures[first] old(start) == 0 ==> a[0] == old(a[0]) + old(a[m]) && a[m] == old(a[0]) - old(a[m])
+//@ ensures[sum] forall(j, s1, end, a[j] == old(a[j]) + old(a[j+m]))
+//@ ensures[difference] forall(j, s1, end, a[j+m] == (old(a[j]) - old(a[j+m])) * ufint_twseq(at0, w, j - s1))
+//@ modifies a
+//@ end
+
+//@ func innerDITWithoutTwiddles
+//@ layer ring fr.Element
+//@ smt (declare-fun twseq (Int Int Int) Int)
+//@ smt (assert (forall ((t Int) (x Int) (n Int)) (! (=> (<= n 0) (= (twseq t x n) t)) :pattern ((twseq t x n)))))
+//@ smt (assert (forall ((t Int) (x Int) (n Int)) (! (=> (> n 0) (= (twseq t x n) (* x (twseq t x (- n 1))))) :pattern ((twseq t x n)))))
+//@ smt-fun twseq Int
+//@ requires 0 <= start && start < end && end <= m && end + m <= len(a) && m <= 1099511627776
+//@ ghost s1 = max(start, 1)
+//@ ghost at0 = at
+//@ loop 0
+//@ + invariant[range] s1 <= i && i <= end && len(a) == old(len(a))
+//@ + invariant[twiddle] at == ufint_twseq(at0, w, i - s1)
+//@ + invariant[done-sum] forall(j, s1, i, a[j] == old(a[j]) + old(a[j+m]) * ufint_twseq(at0, w, j - s1))
+//@ + invariant[done-difference] forall(j, s1, i, a[j+m] == old(a[j]) - old(a[j+m]) * ufint_twseq(at0, w, j - s1))
+//@ + invariant[todo] forall(j, i, end, a[j] == old(a[j]) && a[j+m] == old(a[j+m]))
+//@ + invariant[first] old(start) == 0 ==> a[0] == old(a[0]) + old(a[m]) && a[m] == old(a[0]) - old(a[m])
+//@ ensures[first] old(start) == 0 ==> a[0] == old(a[0]) + old(a[m]) && a[m] == old(a[0]) - old(a[m])
+//@ ensures[sum] forall(j, s1, end, a[j] == old(a[j]) + old(a[j+m]) * ufint_twseq(at0, w, j - s1))
+//@ ensures[difference] forall(j, s1, end, a[j+m] == old(a[j]) - old(a[j+m]) * ufint_twseq(at0, w, j - s1))
+//@ modifies a
+//@ end
+
+//@ func precomputeExpTableChunk
+//@ layer ring fr.Element bigint big.Int
+//@ smt (declare-fun twseq (Int Int Int) Int)
+//@ smt (assert (forall ((t Int) (x Int) (n Int)) (! (=> (<= n 0) (= (twseq t x n) t)) :pattern ((twseq t x n)))))
+//@ smt (assert (forall ((t Int) (x Int) (n Int)) (! (=> (> n 0) (= (twseq t x n) (* x (twseq t x (- n 1))))) :pattern ((twseq t x n)))))
+//@ smt-fun twseq Int
+//@ loop 0
+//@ + invariant[prefix] 1 <= i && i <= len(table) && forall(j, 0, i, table[j] == ufint_twseq(rexp(w, power), w, j))
+//@ ensures[powers] forall(j, 0, len(table), table[j] == ufint_twseq(rexp(w, power), w, j))
+//@ modifies table
+//@ end
